@@ -200,12 +200,110 @@ func genC15(tier string, rng *rand.Rand) []Script {
 	return out
 }
 
+// ---------- C10: Close injected at every position ----------
+
+func insertAt(st []Stim, pos int, x ...Stim) []Stim {
+	out := append([]Stim(nil), st[:pos]...)
+	out = append(out, x...)
+	return append(out, st[pos:]...)
+}
+
+func genC10(tier string, rng *rand.Rand) []Script {
+	var out []Script
+	R := 80
+	if tier == "thorough" {
+		R = 2500
+	}
+	add := func(tag string, st []Stim) {
+		out = append(out, Script{Family: "C10", Tags: []string{tag}, Stims: renumber(st)})
+	}
+	long := func(c int, f filt) Stim { return sub(c, f.fk, f.mod, f.rem, 2, false, false) }
+	// corpus: the refutation witness of Findings/Pub.v (F16) and its Subscriber.Close twin
+	add("corpus-f16-close-pending", []Stim{long(0, filtNil), pubS(0), closePubS})
+	add("corpus-f16-close-pending", []Stim{long(0, filtNil), pubS(0), closeS(0)})
+	// buffered messages stay readable after the close, then "closed"
+	add("buffer-kept", []Stim{long(2, filtNil), pubS(0), pubS(0), pubS(0), closeS(0), recvS(0), recvS(0), recvS(0), pubS(0), recvS(0)})
+	// base scripts: Close (of each subscriber / of the publication, once and twice) at every position
+	bases := [][]Stim{
+		{long(0, filtNil), pubS(0), pubS(0), recvS(0), pubS(0)},
+		{long(1, filtNil), pubS(0), pubS(0), pubS(0), recvS(0), pubS(0)},
+		{long(2, filtEven), long(0, filtNil), pubS(0), pubS(0), recvS(1), pubS(0), recvS(0), pubS(0)},
+		{long(1, filtNil), long(1, filtOdd), pubS(0), pubS(0), pubS(0), recvS(0), recvS(1), pubS(0)},
+		{sub(1, 0, 0, 0, 0, true, true), long(0, filtNil), pubS(0), pubS(0), advanceS, pubS(0), recvS(1)},
+	}
+	if tier == "thorough" {
+		bases = append(bases,
+			[]Stim{long(0, filtNil), long(0, filtNil), long(3, filtNil), pubS(0), pubS(0), recvS(0), pubS(0), recvS(1), recvS(2), pubS(0), pubS(0)},
+			[]Stim{sub(2, 0, 0, 0, 0, false, true), sub(0, 1, 2, 1, 1, true, true), pubS(0), pubS(0), pubS(0), advanceShortS, recvS(1), pubS(0), advanceS, pubS(0)})
+	}
+	for _, b := range bases {
+		ns := 0
+		for _, s := range b {
+			if s.Op == opSub {
+				ns++
+			}
+		}
+		for pos := ns; pos <= len(b); pos++ {
+			for s := 0; s < ns; s++ {
+				add("close-sub", insertAt(b, pos, closeS(s)))
+				add("close-sub-twice", insertAt(b, pos, closeS(s), closeS(s)))
+			}
+			add("close-pub", insertAt(b, pos, closePubS))
+			add("close-pub-twice", insertAt(b, pos, closePubS, closePubS))
+			add("close-both", insertAt(b, pos, closeS(0), closePubS, closeS(ns-1)))
+		}
+		// two closes at different positions
+		for pos := ns; pos <= len(b); pos++ {
+			for pos2 := pos; pos2 <= len(b); pos2 += 2 {
+				add("close-sub-then-pub", insertAt(insertAt(b, pos2, closePubS), pos, closeS(rng.Intn(ns))))
+			}
+		}
+	}
+	// structured random: subscribers with mixed timeouts, closes anywhere, subscribing after a close
+	for i := 0; i < R; i++ {
+		ns := 1 + rng.Intn(3)
+		var st []Stim
+		for k := 0; k < ns; k++ {
+			f := randFilt(rng)
+			tm := 2
+			if rng.Intn(4) == 0 {
+				tm = rng.Intn(2)
+			}
+			st = append(st, sub(rng.Intn(3), f.fk, f.mod, f.rem, tm, rng.Intn(2) == 0, rng.Intn(2) == 0))
+		}
+		n := 6 + rng.Intn(10)
+		have := ns
+		for k := 0; k < n; k++ {
+			switch x := rng.Intn(20); {
+			case x < 8:
+				st = append(st, pubS(0))
+			case x < 13:
+				st = append(st, recvS(rng.Intn(have)))
+			case x < 16:
+				st = append(st, closeS(rng.Intn(have)))
+			case x < 17:
+				st = append(st, closePubS)
+			case x < 18:
+				st = append(st, advanceS)
+			default:
+				f := randFilt(rng)
+				st = append(st, sub(rng.Intn(3), f.fk, f.mod, f.rem, 2, false, false))
+				have++
+			}
+		}
+		add("random", st)
+	}
+	return out
+}
+
 func generate(prop, tier string, rng *rand.Rand) []Script {
 	switch prop {
 	case "C06":
 		return genC06(tier, rng)
 	case "C15":
 		return genC15(tier, rng)
+	case "C10":
+		return genC10(tier, rng)
 	}
 	return nil
 }
@@ -219,6 +317,8 @@ func scopeText(prop, tier string, n int) string {
 		return fmt.Sprintf("%d scripts: every Publish/TryReceive sequence of length 5 for one subscriber (buffer 0,1,2 x no filter/even filter), every sequence of length 4 over {Publish,TryReceive s0,TryReceive s1} for 4 two-subscriber configurations, 120 random scripts (2-4 subscribers, buffers 0-3, six filter kinds, late subscriber); each followed by a drain", n)
 	case "C15":
 		return fmt.Sprintf("%d scripts: the two F11 witnesses, 60ms-vs-60s and 60ms-vs-160ms timeout pairs, Publish x12 into full buffers; every sequence of length %d over {Publish,TryReceive,Advance} for one subscriber with a 60ms timeout and both callbacks (buffer 0,1); every sequence of length %d over {Publish,TryReceive s0,TryReceive s1,Advance} for 3 two-subscriber configurations (s0 60ms, s1 60s); seeded random scripts (2-4 subscribers, buffers 0-2, timeouts 60ms/160ms/60s, callbacks present or nil); each followed by Advance + drain + a settled marker", n, map[string]int{"quick": 4, "thorough": 5}[tier], map[string]int{"quick": 3, "thorough": 4}[tier])
+	case "C10":
+		return fmt.Sprintf("%d scripts: the F16 witness (Subscribe(0); Publish(1); Close) for Publication.Close and Subscriber.Close, a buffer-kept script, and for each of %d base scripts (1-3 subscribers, buffers 0-3, deliveries pending / buffered / timed out) a Close of each subscriber, of the publication, twice, both, and at two different positions injected at EVERY position; seeded random scripts with closes anywhere and subscribers joining after a close; each followed by a drain and a settled marker", n, map[string]int{"quick": 5, "thorough": 7}[tier])
 	}
 	return ""
 }
